@@ -36,6 +36,7 @@ TITLE_CHARS = ['a', "'", '"', '#', '{', '}', '%', '~', '(', ' ', '!']
 CONSTS = [0, 7, -3, 2.5, 1e300, -1e-300, 123456789012345678, True, False, DT(2021, 3, 4, 5, 6, 7), datetime.date(2020, 2, 29),
           datetime.time(1, 2, 3), datetime.timedelta(days=1, seconds=5), '#N/A', '#DIV/0!', '#NAME?', '#REF!', '=', '==', "='", '="',
           '=1+', '=FOO(1)', '=foo()', '=A1:B2', '=1 2', '=#REF!+1', '=SUM(#REF!)', '={1,2}', '=@A1', '=A1#', '=[1]S!A1', '=S!A1:S!B2',
+          '=ZZZZ1', '=AAAA1:B2', '=SUM(A1:ZZZZ1)', '=007', '=A1+007', '=00', '=1.50', '=0.0', '=A1+0010.0100',
           '=TRUE', '=1E5', '=.5', '=1.', '=$A$1', '=A$1:$B2', "='S'!A1", "='S'!", '=S!', '=!A1', '=ZZZ99999999', '=A0', '=XFE1',
           '=A1048577', '=RC[-1]', '=SUM(A:A)', '=SUM(1:1)', '=A1 B1', '=(A1,B1)', '=-', '=+', '=%', '=1%%', '=""""', '="a""b"',
           ('$array', '=SUM(A1:A2*2)'), ('$array', '=A1:A2')]
@@ -332,6 +333,14 @@ def run_nesting(cases, stats):
         bad = examine(sheets, stats, file_mode=(d % 8 == 1))
         if bad:
             report(vio, i, bad[0], bad[1], {'shape': shape, 'depth': d, 'depth_min': d})
+        # the same workbook translated from an entry cell (head of the chain / the nested formula), numeric and A1 addressing
+        for entry in ((0, 0, 0), ('S', 'B' if shape not in ('chain', 'rchain', 'chain-sheets') else 'A', '1'),
+                      ('S', 'A', str(d)) if shape in ('chain', 'rchain') else None):
+            if entry is None:
+                continue
+            bad = examine(sheets, stats, entry=list(entry))
+            if bad:
+                report(vio, i, bad[0], bad[1], {'shape': shape, 'depth': d, 'depth_min': d, 'entry': str(entry)})
     return vio
 
 
@@ -368,6 +377,8 @@ def plan(tier, seed):
                 yield {'v': v, 'shape': 'odd-formula-next-to-good', 'also': '=SUM(A1:A3)'}
 
     def strings():
+        for s in ('\U0001F4CA', 'a\U00020000b', '\u00e9', '\u2028x', '\ufeff', 'tab\there', '\x7f', '\u0085', '\\N{BULLET}', '\\x41', '\\u0041'):
+            yield {'s': s}
         for n in range(0, sl + 1):
             for t in itertools.product(CHARS, repeat=n):
                 s = ''.join(t)
@@ -381,7 +392,8 @@ def plan(tier, seed):
                 s = ''.join(t)
                 if legal_title(s) and legal_title(s + 'x') and s.strip() == s:
                     yield {'t': s}
-        for s in ('Sheet1', '2020', 'A1', 'R1C1', 'TRUE', 'SUM', "it's", 'a.b', 'Лист 1', 'x' * 31, 'a!b', 'a b', '#REF', '=1'):
+        for s in ('Sheet1', '2020', 'A1', 'R1C1', 'TRUE', 'SUM', "it's", 'a.b', 'Лист 1', 'x' * 31, 'a!b', 'a b', '#REF', '=1',
+                  'Sales \U0001F4CA', '\U00020000', 'caf\u00e9', '\u200b', 'a\tb', '\u2028', 'a\x7fb', 'nul\x00'[:3], '\ud7ff', '\uffff'[:0] + 'z\ufeff'):
             yield {'t': s}
 
     def nests():
